@@ -20,6 +20,8 @@ pub struct Profile {
     pub w_kill: u32,
     pub max_phrases: usize,
     pub w_burst: u32,
+    /// weight of "a few hundred clients connect at once" (effective with limit 1000 only)
+    pub w_flood: u32,
 }
 
 fn sel() -> impl Strategy<Value = u16> {
@@ -72,6 +74,15 @@ fn phrase(p: Profile) -> impl Strategy<Value = Vec<Op>> {
     }
     if p.w_stop > 0 {
         alts.push((p.w_stop, Just(vec![Op::Stop]).boxed()));
+    }
+    if p.w_flood > 0 {
+        alts.push((p.w_flood, (sel(), any::<u8>()).prop_map(|(l, n)| vec![Op::ConnectBurst { l, n }, Op::Quiesce]).boxed()));
+        if p.w_ctl > 0 {
+            alts.push((p.w_flood, (sel(), any::<u8>()).prop_map(|(l, n)| vec![Op::Pause, Op::Quiesce, Op::ConnectBurst { l, n }, Op::Quiesce, Op::Resume, Op::Quiesce]).boxed()));
+        }
+        if p.w_inject > 0 {
+            alts.push((p.w_flood, (sel(), any::<u8>(), advance_ms()).prop_map(|(l, n, ms)| vec![Op::Inject { l, kind: ErrKind::Emfile }, Op::ConnectBurst { l, n }, Op::Quiesce, Op::Advance { ms }, Op::Quiesce]).boxed()));
+        }
     }
     if p.w_burst > 0 {
         alts.push((p.w_burst, any::<u8>().prop_map(|n| vec![Op::CtlBurst { n }]).boxed()));
@@ -148,17 +159,17 @@ pub fn strategy(p: Profile, deep: bool) -> impl Strategy<Value = Case> {
         })
 }
 
-pub const P_C01: Profile = Profile { max_workers: 3, limits: &[1, 2, 3], uds: true, two_listeners: true, w_connect: 5, w_race: 1, w_ctl: 1, w_stop: 1, w_inject: 1, w_advance: 1, w_kill: 1, max_phrases: 10, w_burst: 0 };
-pub const P_C02: Profile = Profile { max_workers: 3, limits: &[1, 2, 3, 4], uds: false, two_listeners: true, w_connect: 6, w_race: 2, w_ctl: 1, w_stop: 0, w_inject: 0, w_advance: 0, w_kill: 0, max_phrases: 10, w_burst: 0 };
-pub const P_C03: Profile = Profile { max_workers: 3, limits: &[1, 1, 1, 2, 2, 2, 3, 4], uds: false, two_listeners: true, w_connect: 5, w_race: 2, w_ctl: 1, w_stop: 0, w_inject: 0, w_advance: 0, w_kill: 0, max_phrases: 10, w_burst: 0 };
-pub const P_C04_SAT: Profile = Profile { max_workers: 4, limits: &[1, 2, 3], uds: false, two_listeners: true, w_connect: 6, w_race: 0, w_ctl: 1, w_stop: 0, w_inject: 0, w_advance: 0, w_kill: 0, max_phrases: 10, w_burst: 0 };
-pub const P_C04_UNSAT: Profile = Profile { max_workers: 4, limits: &[64], uds: false, two_listeners: true, w_connect: 6, w_race: 1, w_ctl: 1, w_stop: 0, w_inject: 0, w_advance: 0, w_kill: 0, max_phrases: 10, w_burst: 0 };
-pub const P_C05: Profile = Profile { max_workers: 2, limits: &[64, 64, 1, 2], uds: true, two_listeners: true, w_connect: 4, w_race: 0, w_ctl: 3, w_stop: 1, w_inject: 3, w_advance: 3, w_kill: 0, max_phrases: 9, w_burst: 1 };
-pub const P_C06: Profile = Profile { max_workers: 2, limits: &[64, 2], uds: true, two_listeners: true, w_connect: 4, w_race: 0, w_ctl: 2, w_stop: 3, w_inject: 0, w_advance: 0, w_kill: 0, max_phrases: 8, w_burst: 3 };
-pub const P_C04_FAULT: Profile = Profile { max_workers: 4, limits: &[1, 2], uds: false, two_listeners: false, w_connect: 6, w_race: 0, w_ctl: 0, w_stop: 0, w_inject: 0, w_advance: 0, w_kill: 3, max_phrases: 10, w_burst: 0 };
-pub const P_C04_FAULT_UNSAT: Profile = Profile { max_workers: 4, limits: &[64], uds: false, two_listeners: false, w_connect: 8, w_race: 0, w_ctl: 0, w_stop: 0, w_inject: 0, w_advance: 0, w_kill: 3, max_phrases: 10, w_burst: 0 };
-pub const P_C03_FAULT: Profile = Profile { max_workers: 3, limits: &[1, 1, 2, 3], uds: false, two_listeners: false, w_connect: 5, w_race: 1, w_ctl: 1, w_stop: 0, w_inject: 0, w_advance: 0, w_kill: 3, max_phrases: 10, w_burst: 0 };
-pub const P_C08: Profile = Profile { max_workers: 3, limits: &[1, 2, 3], uds: false, two_listeners: false, w_connect: 5, w_race: 1, w_ctl: 1, w_stop: 0, w_inject: 0, w_advance: 0, w_kill: 4, max_phrases: 9, w_burst: 0 };
+pub const P_C01: Profile = Profile { max_workers: 3, limits: &[1, 2, 3, 1, 2, 3, 1000], uds: true, two_listeners: true, w_connect: 5, w_race: 1, w_ctl: 1, w_stop: 1, w_inject: 1, w_advance: 1, w_kill: 1, max_phrases: 10, w_burst: 0, w_flood: 2 };
+pub const P_C02: Profile = Profile { max_workers: 3, limits: &[1, 2, 3, 4], uds: false, two_listeners: true, w_connect: 6, w_race: 2, w_ctl: 1, w_stop: 0, w_inject: 0, w_advance: 0, w_kill: 0, max_phrases: 10, w_burst: 0, w_flood: 0 };
+pub const P_C03: Profile = Profile { max_workers: 3, limits: &[1, 1, 1, 2, 2, 2, 3, 4, 1000], uds: false, two_listeners: true, w_connect: 5, w_race: 2, w_ctl: 1, w_stop: 0, w_inject: 0, w_advance: 0, w_kill: 0, max_phrases: 10, w_burst: 0, w_flood: 2 };
+pub const P_C04_SAT: Profile = Profile { max_workers: 4, limits: &[1, 2, 3], uds: false, two_listeners: true, w_connect: 6, w_race: 0, w_ctl: 1, w_stop: 0, w_inject: 0, w_advance: 0, w_kill: 0, max_phrases: 10, w_burst: 0, w_flood: 0 };
+pub const P_C04_UNSAT: Profile = Profile { max_workers: 4, limits: &[64], uds: false, two_listeners: true, w_connect: 6, w_race: 1, w_ctl: 1, w_stop: 0, w_inject: 0, w_advance: 0, w_kill: 0, max_phrases: 10, w_burst: 0, w_flood: 0 };
+pub const P_C05: Profile = Profile { max_workers: 2, limits: &[64, 64, 1, 2, 1000], uds: true, two_listeners: true, w_connect: 4, w_race: 0, w_ctl: 3, w_stop: 1, w_inject: 3, w_advance: 3, w_kill: 0, max_phrases: 9, w_burst: 1, w_flood: 2 };
+pub const P_C06: Profile = Profile { max_workers: 2, limits: &[64, 2], uds: true, two_listeners: true, w_connect: 4, w_race: 0, w_ctl: 2, w_stop: 3, w_inject: 0, w_advance: 0, w_kill: 0, max_phrases: 8, w_burst: 3, w_flood: 0 };
+pub const P_C04_FAULT: Profile = Profile { max_workers: 4, limits: &[1, 2], uds: false, two_listeners: false, w_connect: 6, w_race: 0, w_ctl: 0, w_stop: 0, w_inject: 0, w_advance: 0, w_kill: 3, max_phrases: 10, w_burst: 0, w_flood: 0 };
+pub const P_C04_FAULT_UNSAT: Profile = Profile { max_workers: 4, limits: &[64], uds: false, two_listeners: false, w_connect: 8, w_race: 0, w_ctl: 0, w_stop: 0, w_inject: 0, w_advance: 0, w_kill: 3, max_phrases: 10, w_burst: 0, w_flood: 0 };
+pub const P_C03_FAULT: Profile = Profile { max_workers: 3, limits: &[1, 1, 2, 3], uds: false, two_listeners: false, w_connect: 5, w_race: 1, w_ctl: 1, w_stop: 0, w_inject: 0, w_advance: 0, w_kill: 3, max_phrases: 10, w_burst: 0, w_flood: 0 };
+pub const P_C08: Profile = Profile { max_workers: 3, limits: &[1, 2, 3], uds: false, two_listeners: false, w_connect: 5, w_race: 1, w_ctl: 1, w_stop: 0, w_inject: 0, w_advance: 0, w_kill: 4, max_phrases: 9, w_burst: 0, w_flood: 0 };
 
 pub fn nontrivial(prop: Prop, c: &Case, labels: &[&'static str]) -> bool {
     let has = |l: &str| labels.contains(&l);
